@@ -310,3 +310,45 @@ func lineAt(starts []int, p int) int {
 	// number of line starts <= p, plus one
 	return 1 + sort.Search(len(starts), func(i int) bool { return starts[i] > p })
 }
+
+// cloneVertex: a deep copy of the node structure (new node objects; tokens, positions and byte values shared).
+func cloneVertex(v ast.Vertex) ast.Vertex {
+	if isNilVertex(v) {
+		return v
+	}
+	rv := reflect.ValueOf(v)
+	if rv.Kind() != reflect.Ptr {
+		return v
+	}
+	nv := reflect.New(rv.Elem().Type())
+	nv.Elem().Set(rv.Elem())
+	for _, f := range fieldsOf(nv.Interface().(ast.Vertex)) {
+		switch f.Sort {
+		case 3:
+			if !f.Val.IsNil() {
+				c := f.Val.Interface().(ast.Vertex)
+				if !isNilVertex(c) {
+					f.Val.Set(reflect.ValueOf(cloneVertex(c)))
+				}
+			}
+		case 4:
+			if !f.Val.IsNil() {
+				ns := reflect.MakeSlice(f.Val.Type(), f.Val.Len(), f.Val.Len())
+				for i := 0; i < f.Val.Len(); i++ {
+					e := f.Val.Index(i)
+					if !e.IsNil() {
+						c := e.Interface().(ast.Vertex)
+						if !isNilVertex(c) {
+							ns.Index(i).Set(reflect.ValueOf(cloneVertex(c)))
+							continue
+						}
+					}
+					ns.Index(i).Set(e)
+				}
+				f.Val.Set(ns)
+			}
+		}
+	}
+	return nv.Interface().(ast.Vertex)
+}
+
